@@ -5,10 +5,11 @@ import NdnModel.Lvs.Model
   search as an explicit step function run with fuel, and a structurally recursive `matchTree`),
   `match`, `check`.
 
-  The model follows the tree **with the two candidate repairs applied**
-  (`/verif/candidate_fixes/C13-sanity-parent.diff`: `if node.parent != par`, and
+  The model follows the tree **with the candidate repairs applied**
+  (`/verif/candidate_fixes/C13-sanity-parent.diff`: `if node.parent != par`,
   `/verif/candidate_fixes/C12-bound-tag-constraints.diff`: constraints of a pattern edge are checked
-  also when the tag is already bound).
+  also when the tag is already bound, and `/verif/candidate_fixes/C13-node-id-every-node.diff`: the node-id
+  rule is checked for every node of the array, `idsOK`).
 -/
 namespace Ndn.Lvs
 
@@ -82,9 +83,16 @@ def signOK (m : Model) : Bool :=
     | none => [])
   edges.all (fun e => ids.contains e.1 && ids.contains e.2) && kahn ids.length ids edges
 
-/-- the structural part of `_sanity_check` (version + `dfs`) -/
+/-- `for idx, node in enumerate(self.model.nodes): if node.id != idx: raise LvsModelError` — every node of the
+    array, reachable or not, carries its index as `NodeId` -/
+def idsOK (m : Model) : Bool :=
+  (List.range m.nodes.length).all fun i => match m.nodes[i]? with
+    | some node => node.id == some i
+    | none => true
+
+/-- the structural part of `_sanity_check` (version + node ids + `dfs`) -/
 def structCheck (m : Model) : Bool :=
-  versionOK m && dfs m (m.nodes.length + 1) m.startId none
+  versionOK m && idsOK m && dfs m (m.nodes.length + 1) m.startId none
 
 /-- `Checker.__init__` → `_sanity_check` -/
 def sanityCheck (m : Model) : Except LvsErr Unit :=
